@@ -287,6 +287,51 @@ func rulesTranslate(c *Ctx, r *Report, g *ssa.Global, codon map[[3]int64]int64) 
 			}
 		}
 	}
+	if len(storesToBuf) == 0 && foldFn == f {
+		// by-value form: buf = helper(buf) — the whole array is loaded, passed, and the result stored back
+		for _, ref := range *buf.Referrers() {
+			st, ok := ref.(*ssa.Store)
+			if !ok || st.Addr != ssa.Value(buf) {
+				continue
+			}
+			cl, ok := st.Val.(*ssa.Call)
+			if !ok || !instrDominates(cp, cl) || !instrDominates(st, lk) {
+				continue
+			}
+			g := cl.Call.StaticCallee()
+			if g == nil || g.Blocks == nil || !c.inModule(g) || len(cl.Call.Args) != 1 || len(g.Params) != 1 {
+				continue
+			}
+			ld, ok := cl.Call.Args[0].(*ssa.UnOp)
+			if !ok || ld.Op != token.MUL || ld.X != ssa.Value(buf) {
+				continue
+			}
+			// in the helper the parameter is spilled to a local array, modified in place, and returned whole
+			var cell *ssa.Alloc
+			for _, r2 := range *g.Params[0].Referrers() {
+				if sp, ok := r2.(*ssa.Store); ok && sp.Val == ssa.Value(g.Params[0]) {
+					cell, _ = sp.Addr.(*ssa.Alloc)
+				}
+			}
+			retOK := cell != nil
+			instrs(g, func(in ssa.Instruction) {
+				if rt, ok := in.(*ssa.Return); ok {
+					ops := retOperands(rt)
+					if len(ops) != 1 {
+						retOK = false
+						return
+					}
+					if rl, ok := ops[0].(*ssa.UnOp); !ok || rl.Op != token.MUL || rl.X != ssa.Value(cell) {
+						retOK = false
+					}
+				}
+			})
+			if retOK {
+				foldFn, foldBuf = g, cell
+				r.analysed(fname(g))
+			}
+		}
+	}
 	T, foldPos, why, undec := codonFoldTable(c, foldFn, foldBuf)
 	if why != "" {
 		if undec {
